@@ -147,7 +147,7 @@ Recover ==
                IF HeightOf(far) > HeightOf(snapRaw) /\ ~IsAncestor(snapRaw, far)
                THEN /\ panicked' = "unknown path to block"
                     /\ UNCHANGED <<known, kids, tip, utxo, undo, idxF>>
-               ELSE LET st0 == [known |-> kn, kids |-> kd, tip |-> snapRaw, utxo |-> u0, undo |-> undo, failed |-> <<>>, conn |-> <<>>]
+               ELSE LET st0 == [known |-> kn, kids |-> kd, tip |-> snapRaw, utxo |-> u0, undo |-> undo, failed |-> <<>>, conn |-> <<>>, fviol |-> {}]
                         full == ChainTo(far)
                         path == IF HeightOf(far) > HeightOf(snapRaw)
                                 THEN SubSeq(full, Len(ChainTo(snapRaw)) + 1, Len(full)) ELSE <<>>
